@@ -137,7 +137,13 @@ func zzvNewUWorld(t *testing.T) *zzvUWorld {
 			w.mu.Unlock()
 		}
 	})
-	w.srv = NewServer(ServerConfig{Address: "127.0.0.1:0", MaxConnections: 100, IdleTimeout: time.Minute})
+	// ZZV_LISTEN_ANY=1: dual-stack wildcard listener - the control connection's peer address then has the 16-byte
+	// IPv4-mapped form (seeded/C22-s4)
+	laddr := "127.0.0.1:0"
+	if os.Getenv("ZZV_LISTEN_ANY") == "1" {
+		laddr = ":0"
+	}
+	w.srv = NewServer(ServerConfig{Address: laddr, MaxConnections: 100, IdleTimeout: time.Minute})
 	w.srv.SetUDPHandler(w.rec)
 	if err := w.srv.Start(); err != nil {
 		t.Fatal(err)
@@ -198,7 +204,8 @@ func (w *zzvUWorld) open(tr string) (*zzvUConn, error) {
 		return c, nil
 	}
 	d := net.Dialer{LocalAddr: &net.TCPAddr{IP: net.IPv4(127, 0, 0, 1)}, Timeout: 3 * time.Second}
-	tcp, err := d.Dial("tcp", w.srv.Address().String())
+	_, lport, _ := net.SplitHostPort(w.srv.Address().String())
+	tcp, err := d.Dial("tcp4", net.JoinHostPort("127.0.0.1", lport))
 	if err != nil {
 		return nil, err
 	}
